@@ -211,6 +211,7 @@ JudgeSwap(s, e, p) ==
       ss == pl.kind = "ss" /\ AllPositive(pl.res)
   IN [ C04_wellformed_only     |-> G(e.ok, wellformed),
        C17_swap_gated          |-> G(good, pl.sw),
+       C17_swap_blocked_only_by_its_switch |-> G(~e.ok /\ e.err = "disabled" /\ known, ~pl.sw),
        C04_offer_added_ask_reduced |-> G(good, Pools(p)[e.pool] = [pl EXCEPT !.res = res1] /\ OtherPoolsUnchanged(s, p, {e.pool})),
        C04_fee_floors          |-> G(good, FeesOK(pl, r)),
        C04_destinations        |-> G(good, MoneyMoves(s, p, T) /\ p.fm.pos = s.fm.pos),
@@ -280,6 +281,7 @@ JudgeRoute(s, e, p) ==
        C04_route_fee_floors    |-> G(good, acc.fees),
        C03_route_invariants_non_decreasing |-> GK(followable, acc.inv, IF acc.invK THEN "F7" ELSE IF acc.invK2 THEN "F11" ELSE ""),
        C17_route_gated         |-> G(good, acc.gate),
+       C17_route_blocked_only_by_a_swap_switch |-> G(~e.ok /\ e.err = "disabled" /\ wellformed, \E k \in 1..n : ~Pools(s)[e.hops[k].pool].sw),
        C12_route_quote_equals_execution |-> G(good /\ simple, e.quote.ok /\ e.quote.ret = e.final),
        C13_minimum_receive_enforced |-> G(good /\ e.min_receive.set, BLe(e.min_receive.v, e.final)),
        C13_minimum_receive_rejected_only_when_short |-> G(~e.ok /\ e.err = "min_receive" /\ wellformed /\ simple /\ e.quote.ok /\ e.min_receive.set,
@@ -366,6 +368,7 @@ JudgeProvide(s, e, p) ==
       funded == AllPositive(pl.res)
   IN [ C02_deposit_wellformed_only |-> G(e.ok, wellformed),
        C17_deposit_gated       |-> G(e.ok /\ known, pl.dep),
+       C17_deposit_blocked_only_by_its_switch |-> G(~e.ok /\ e.err = "disabled" /\ known, ~pl.dep),
        C13_deposit_tolerance_above_one_refused |-> G(good /\ tolSet /\ funded, BLe(t, Dec18)),
        C13_deposit_ratio_within_tolerance |-> G(good /\ tolSet /\ funded /\ pl.kind = "cp" /\ BLe(t, Dec18), DepositRatioWithin(dep, pl.res, t)),
        \* recorded finding F5: a stableswap deposit with a tolerance is always refused (trigger: stableswap pool)
@@ -397,6 +400,7 @@ JudgeProvideSingle(s, e, p) ==
   IN [ C14_single_wellformed_only |-> G(e.ok, wellformed),
        C14_only_two_asset_funded_pools |-> G(e.ok /\ wellformed, two /\ AllPositive(pl.res)),
        C17_single_needs_swaps_and_deposits |-> G(e.ok /\ known, pl.sw /\ pl.dep),
+       C17_single_blocked_only_by_swap_or_deposit_switch |-> G(~e.ok /\ e.err = "disabled" /\ known, ~pl.sw \/ ~pl.dep),
        C14_internal_swap_is_the_quoted_swap |-> G(e.ok /\ wellformed /\ two, q.ok),
        C04_single_fee_floors   |-> G(good, FeesOK(pl, r)),
        C03_single_invariant_non_decreasing |-> GK(good, InvariantOK(pl, resMid), F7(pl, resMid, a)),
@@ -424,6 +428,7 @@ JudgeWithdraw(s, e, p) ==
       redeemable == \E i \in DOMAIN pl.res : P!WithdrawFloor(pl.res[i], b, S) # Z
   IN [ C02_withdraw_wellformed_only |-> G(e.ok, wellformed),
        C17_withdraw_gated      |-> G(good, pl.wd),
+       C17_withdraw_blocked_only_by_its_switch |-> G(~e.ok /\ e.err = "disabled" /\ known, ~pl.wd),
        C02_withdraw_pays_pro_rata |-> G(good, \A i \in DOMAIN pl.res : P!WithdrawShareOK(paid[i], pl.res[i], b, S)),
        C02_withdraw_accounting |-> G(good, /\ Pools(p)[e.pool] = [pl EXCEPT !.res = [i \in DOMAIN pl.res |-> BSub(pl.res[i], paid[i])], !.supply = BSub(S, b)]
                                            /\ OtherPoolsUnchanged(s, p, {e.pool})
